@@ -10,6 +10,21 @@ CHECKS = {
    technique="explicit-state model checking of the real push/pull/rekey code with stateright (BFS/DFS over all action histories up to a depth bound) in lockstep with libsodium, plus exhaustive length/AD/tag product sweep",
    text="Every history over a ~31-action protocol alphabet (push with 2 lengths x AD x 4 tags, one- and two-sided rekeys, in-order delivery, 12 kinds of out-of-position/forged delivery) from 12 initial states (incl. counters at 0xfffffffe/0xffffffff) is executed on the real code up to depth 6 (quick) / deepest bound completed (thorough); every transition compares ciphertext bytes, both raw states and accept/reject verdict with libsodium and with a pre-state reference model; then every (state class, mlen, adlen, tag byte) cell is pushed and pulled once.",
    note="Trusted: libsodium 1.0.18 as reference; hook H1 installs raw (key, nonce) states; histories beyond the depth bound and byte values outside the alphabets are not covered."),
+ "C14": dict(
+   engine="E-state history-replay explorer on the real allocator and kernel (mc/src/pm.rs, nightly build)", cat="model_checking", ref="DESIGN.md §3 C14",
+   technique="exhaustive history-replay exploration: every operation sequence up to a depth bound over the type-state API is executed on fresh real protected regions, one process per (container, length); the kernel's view (/proc/self/smaps, VmLck, fork-probe signals) is compared with a type-state reference model after every history",
+   text="All histories up to length 5 (quick) / 6 (thorough) over 7 constructors and mlock/munlock/mprotect_*/clone/resize/write/drop on up to two live handles, for 9 lengths x HeapBytes and 9 HeapByteArray<N>, are run on the real code; page rights, lock flag, VmLck, both guard pages, contents and the final no-residue condition are read from the kernel; forbidden accesses are performed in forked children and must die by SIGSEGV.",
+   note="Trusted: Linux /proc and signal delivery; hook H2 (allocation sizes); lengths outside the alphabet and more than two simultaneous handles are not covered."),
+ "C15": dict(
+   engine="E-state history-replay explorer + release observer (mc/src/pm.rs, nightly build)", cat="model_checking", ref="DESIGN.md §3 C15",
+   technique="exhaustive history-replay exploration of container operation sequences with an allocator release observer: every released allocation is read in full immediately before free() and must be all zero",
+   text="All histories up to length 5 (quick) / 6 (thorough) over constructors (incl. raw heap containers), write, resize up/down (forcing reallocation, truncation, spare capacity), clone, lock/protect transitions and drop; at each of the release events the whole allocation incl. spare capacity is checked for non-zero bytes and alloc/release counts must balance.",
+   note="Trusted: hook H2 reports every deallocation of the page-aligned allocator right before free(); stack and Vec<u8> containers are outside the statement."),
+ "C19": dict(
+   engine="E-fault (mlock refusal by in-process interposer) on the E-state explorer (mc/src/pm.rs, nightly build)", cat="fault_enumeration", ref="DESIGN.md §3 C19",
+   technique="exhaustive single-point fault enumeration over environment answers: every history up to the depth bound is re-executed for every k with the k-th and all later mlock calls refused; Result-returning calls must return Err, survivors keep the C14 kernel invariant, drop keeps the C14 final and C15 release conditions",
+   text="Every (history, k) pair for histories of length <= 4 (quick) / 5 (thorough): refusal is injected by defining the mlock symbol in the harness binary; panics are caught and attributed to the operation; kernel view and release observer checked as in C14/C15.",
+   note="Trusted: the interposed mlock is the only lock entry point dryoc uses on Linux; only mlock is refused."),
 }
 
 def main():
